@@ -98,11 +98,12 @@ def gen(ctx):
 
 
 def run(ctx):
-    ok = ctx.build(['props/C01.vo', 'props/C01String.vo', 'props/C01Expand.vo', 'run/MarkupRun.vo'])
+    ok = ctx.build(['props/C01.vo', 'props/C01String.vo', 'props/C01Expand.vo', 'props/C01Implicit.vo', 'run/MarkupRun.vo'])
     if ok:
         ctx.obligations('props/C01.v')
         ctx.obligations('props/C01String.v')
         ctx.obligations('props/C01Expand.v')
+        ctx.obligations('props/C01Implicit.v')
     model = ctx.model('markup') if ok else None
     ctx.cov['rule'] = ('statements generated from an AST (elements, > + ^ groups, *N, nameless elements), rendered to text; '
                        'exhaustive operator skeletons up to the stated size, implicit-name table, random large statements; '
